@@ -1,6 +1,8 @@
 package main
 
 import (
+	"fmt"
+	"os"
 	"go/ast"
 	"go/token"
 	"go/types"
@@ -874,6 +876,9 @@ func (p *Prog) envStep(s ast.Stmt, cur ienv) ienv {
 				vals[i] = p.evalIBin(rhs, cur)
 				if p.ivCurFn != nil && (x.Tok == token.ASSIGN || x.Tok == token.DEFINE) {
 					vals[i] = p.linRefine(p.ivCurFn, r, x, cur, vals[i])
+				} else if p.ivCurFn != nil && (x.Tok == token.ADD_ASSIGN || x.Tok == token.SUB_ASSIGN) {
+					// e -= f(e, ...): the old value of e may cancel against the right-hand side
+					vals[i] = p.linRefine(p.ivCurFn, rhs, x, cur, vals[i])
 				}
 			}
 			for i, l := range x.Lhs {
@@ -1037,6 +1042,15 @@ func (p *Prog) envStep(s ast.Stmt, cur ienv) ienv {
 							}
 						}
 					}
+					if i == 1 {
+						// the exponent delivered by the rounding kernel is not below the minimum exponent
+						// (E7.expfloor decides this inside reduceN and round)
+						if cn := p.calleeName(call); strings.HasPrefix(cn, "RoundingMode.reduce") || cn == "RoundingMode.round" {
+							if t := p.typeOf(l); t != nil && isIntType(t) {
+								out[k] = meetIval(typeRangeOf(t), ival{lo: big.NewInt(0)})
+							}
+						}
+					}
 					if i == 1 && zeroIn {
 						// the remainder of dividing zero
 						if t := p.typeOf(l); t != nil && isIntType(t) {
@@ -1068,7 +1082,11 @@ func (p *Prog) envStep(s ast.Stmt, cur ienv) ienv {
 		// wrap-around is not modelled: an increment at the top of the type range loses the bound
 		tr := typeRangeOf(p.typeOf(x.X))
 		if tr.hi != nil && nv.hi != nil && nv.hi.Cmp(tr.hi) > 0 {
-			nv = ival{}
+			if p.ivNoIncWrap[k] && x.Tok == token.INC {
+				nv.hi = tr.hi // stated assumption of the rule that set the key: this increment does not overflow
+			} else {
+				nv = ival{}
+			}
 		}
 		if tr.lo != nil && nv.lo != nil && nv.lo.Cmp(tr.lo) < 0 {
 			nv = ival{}
@@ -1199,7 +1217,7 @@ func (p *Prog) loopFix(x *ast.ForStmt, entry ienv) (head, exit ienv) {
 	}
 	head = entry.clone()
 	stable, widened := false, false
-	for iter := 0; iter < 8 && !stable; iter++ {
+	for iter := 0; iter < 24 && !stable; iter++ {
 		next := joinEnv(head, step(head))
 		if envEqual(next, head) {
 			stable = true
@@ -1214,6 +1232,10 @@ func (p *Prog) loopFix(x *ast.ForStmt, entry ienv) (head, exit ienv) {
 				keep := ival{}
 				if hv.lo != nil && nv.lo != nil && hv.lo.Cmp(nv.lo) == 0 {
 					keep.lo = nv.lo
+				} else if hv.lo != nil && nv.lo != nil && nv.lo.Sign() >= 0 && hv.lo.Sign() >= 0 {
+					// widening with the threshold 0: a lower bound moving down but still non-negative
+					// is tried at zero before it is given up (a counter guarded by `> 0`)
+					keep.lo = big.NewInt(0)
 				}
 				if hv.hi != nil && nv.hi != nil && hv.hi.Cmp(nv.hi) == 0 {
 					keep.hi = nv.hi
@@ -1223,6 +1245,19 @@ func (p *Prog) loopFix(x *ast.ForStmt, entry ienv) (head, exit ienv) {
 				}
 			}
 			next = w
+		}
+		if os.Getenv("DVERIF_DEBUG") == "loopfix" && p.ivCurFn != nil && p.ivCurFn.Name.Name == "round" {
+			for k, nv := range next {
+				hv := head[k]
+				if !(hv.lo != nil && nv.lo != nil && hv.lo.Cmp(nv.lo) == 0 || hv.lo == nil && nv.lo == nil) || !(hv.hi != nil && nv.hi != nil && hv.hi.Cmp(nv.hi) == 0 || hv.hi == nil && nv.hi == nil) {
+					fmt.Fprintf(os.Stderr, "LOOPFIX iter %d pos %d: %q [%v,%v] -> [%v,%v]\n", iter, x.Pos(), k, hv.lo, hv.hi, nv.lo, nv.hi)
+				}
+			}
+			for k := range head {
+				if _, ok := next[k]; !ok {
+					fmt.Fprintf(os.Stderr, "LOOPFIX iter %d pos %d: %q dropped\n", iter, x.Pos(), k)
+				}
+			}
 		}
 		head = next
 	}
@@ -1240,6 +1275,9 @@ func (p *Prog) loopFix(x *ast.ForStmt, entry ienv) (head, exit ienv) {
 			}
 			head = n
 		}
+	}
+	if widened {
+		p.tripRefine(x, entry, head)
 	}
 	step(head) // the break environments that belong to the final head
 	var exits []ienv
@@ -1375,7 +1413,11 @@ func (p *Prog) intervalAt(fd *ast.FuncDecl, e ast.Expr, stack []ast.Node) ival {
 // linear form over variables whose intervals hold at the site (definitions are looked through only
 // when their sources are unchanged since).
 func (p *Prog) linRefine(fd *ast.FuncDecl, e ast.Expr, site ast.Node, env ienv, out ival) ival {
-	if terms, c, ok := p.linForm(fd, e, site, 0); ok && !env.isBottom() && len(terms) > 0 {
+	saveLin := p.linEnv
+	p.linEnv = env
+	terms, c, ok := p.linForm(fd, e, site, 0)
+	p.linEnv = saveLin
+	if ok && !env.isBottom() && len(terms) > 0 {
 		// variable intervals at the site; a variable expanded from an earlier definition keeps its meaning
 		// because nothing it depends on was assigned in between
 		types_ := map[string]ival{}
@@ -1389,10 +1431,19 @@ func (p *Prog) linRefine(fd *ast.FuncDecl, e ast.Expr, site ast.Node, env ienv, 
 			}
 			return true
 		})
-		lin := p.linInterval(fd, terms, c, env, func(k string) ival { return types_[k] })
+		lin := p.linInterval(fd, terms, c, env, func(k string) ival {
+			if iv, ok := p.linOpaque[k]; ok {
+				return iv
+			}
+			return types_[k]
+		})
 		// the linear value is the mathematical one: it equals the machine value only if no intermediate
 		// wrapped, which holds when the plain evaluation already stayed inside the type range
-		tr := typeRangeOf(p.typeOf(e))
+		et := p.typeOf(e)
+		if be, isBin := e.(*ast.BinaryExpr); isBin && et == nil {
+			et = p.typeOf(be.X) // a synthetic `lhs op rhs` of an op-assignment
+		}
+		tr := typeRangeOf(et)
 		if lin.lo != nil && lin.hi != nil && tr.lo != nil && !(out.lo != nil && out.hi != nil && out.lo.Cmp(tr.lo) == 0 && out.hi.Cmp(tr.hi) == 0) {
 			out = meetIval(out, lin)
 		}
@@ -1404,6 +1455,19 @@ func (p *Prog) linRefine(fd *ast.FuncDecl, e ast.Expr, site ast.Node, env ienv, 
 // call sites pass (one call-graph level at a time, depth-limited; exported functions can be called
 // with anything).
 func (p *Prog) paramEnv(fd *ast.FuncDecl) ienv {
+	env := p.paramEnv0(fd)
+	// stated assumptions on a parameter (each one is listed by the rule that installs it)
+	for k, a := range p.ivParamAssume[fd] {
+		if cur, ok := env[k]; ok {
+			env[k] = meetIval(cur, a)
+		} else {
+			env[k] = a
+		}
+	}
+	return env
+}
+
+func (p *Prog) paramEnv0(fd *ast.FuncDecl) ienv {
 	env := ienv{}
 	if fd.Name.IsExported() || fd.Type.Params == nil || p.ivDepth >= 2 {
 		return env
@@ -1810,7 +1874,27 @@ func (p *Prog) linForm(fd *ast.FuncDecl, e ast.Expr, site ast.Node, depth int) (
 				if (tw > aw && (ab.Info()&types.IsUnsigned != 0 || tb.Info()&types.IsUnsigned == 0)) || (tw == aw && (ab.Info()&types.IsUnsigned != 0) == (tb.Info()&types.IsUnsigned != 0)) {
 					return p.linForm(fd, x.Args[0], site, depth)
 				}
+				// any other conversion keeps the value when the operand's interval fits the target type
+				// (the interval holds at the site of the refinement; a looked-through definition has
+				// unchanged sources, so the operand had the same value where it was converted)
+				if p.linEnv != nil {
+					av, tr := p.evalI(x.Args[0], p.linEnv), typeRangeOf(tv.Type)
+					if av.lo != nil && av.hi != nil && tr.lo != nil && tr.hi != nil && av.lo.Cmp(tr.lo) >= 0 && av.hi.Cmp(tr.hi) <= 0 {
+						return p.linForm(fd, x.Args[0], site, depth)
+					}
+				}
 			}
+		}
+	}
+	if call, isCall := e.(*ast.CallExpr); isCall && p.linEnv != nil {
+		// a call with a bounded result is an opaque term of its own (never cancels, contributes its interval)
+		if iv := p.evalI(call, p.linEnv); iv.lo != nil && iv.hi != nil {
+			k := "\x01call@" + itoa(int(call.Pos()))
+			if p.linOpaque == nil {
+				p.linOpaque = map[string]ival{}
+			}
+			p.linOpaque[k] = iv
+			return map[string]*big.Int{k: big.NewInt(1)}, big.NewInt(0), true
 		}
 	}
 	key := p.ikey(e)
@@ -1930,4 +2014,168 @@ func (p *Prog) linInterval(fd *ast.FuncDecl, terms map[string]*big.Int, c *big.I
 		out.hi.Add(out.hi, b)
 	}
 	return out
+}
+
+
+// tripRefine: a loop whose every full iteration divides a non-zero limb value exactly by 10^k (it
+// leaves through `if rem != 0 { break }` otherwise) runs at most floor(bits·log10(2)/k) full
+// iterations — 10^(k·T) divides a value below 2^bits. (For a zero value the loop never ends, so no
+// state leaves it.) Counters the body only steps by constants are therefore within (T+1) steps of
+// their entry value at every point of the loop. Bounds lost by widening are restored from that.
+func (p *Prog) tripRefine(x *ast.ForStmt, entry, head ienv) {
+	if x.Body == nil {
+		return
+	}
+	hasContinue := false
+	ast.Inspect(x.Body, func(n ast.Node) bool {
+		if b, ok := n.(*ast.BranchStmt); ok && (b.Tok == token.CONTINUE || b.Tok == token.GOTO) {
+			hasContinue = true
+		}
+		return true
+	})
+	if hasContinue {
+		return
+	}
+	if p.ivDivK == nil {
+		p.ivDivK, _ = p.divKTable()
+	}
+	trip := int64(-1)
+	list := x.Body.List
+	for i, s := range list {
+		as, ok := s.(*ast.AssignStmt)
+		if !ok || len(as.Lhs) != 2 || len(as.Rhs) != 1 {
+			continue
+		}
+		call, ok := as.Rhs[0].(*ast.CallExpr)
+		if !ok || len(call.Args) != 0 {
+			continue
+		}
+		sel, ok := call.Fun.(*ast.SelectorExpr)
+		if !ok {
+			continue
+		}
+		info, ok := p.ivDivK[p.calleeName(call)]
+		if !ok || info.Log10 <= 0 {
+			continue
+		}
+		vk, qk, rk := p.exprKey(sel.X), p.exprKey(as.Lhs[0]), p.exprKey(as.Lhs[1])
+		limbs := limbsOf(p.typeOf(sel.X))
+		if vk == "" || qk == "" || rk == "" || limbs < 1 {
+			continue
+		}
+		// later in the same list: if rem != 0 { ...; break } and V = q (or the quotient was stored in V directly)
+		leaves, commits := false, qk == vk
+		for _, t := range list[i+1:] {
+			if ifs, ok := t.(*ast.IfStmt); ok && ifs.Else == nil && ifs.Init == nil && endsWithBreak(ifs.Body.List) {
+				if be, ok := ast.Unparen(ifs.Cond).(*ast.BinaryExpr); ok && be.Op == token.NEQ && p.exprKey(be.X) == rk {
+					if z, ok := p.constInt64(be.Y); ok && z == 0 {
+						leaves = true
+					}
+				}
+			}
+			if a2, ok := t.(*ast.AssignStmt); ok && a2.Tok == token.ASSIGN && len(a2.Lhs) == 1 && len(a2.Rhs) == 1 && p.exprKey(a2.Lhs[0]) == vk && p.exprKey(a2.Rhs[0]) == qk {
+				commits = true
+			}
+		}
+		// V must not be assigned anywhere else in the loop
+		others := 0
+		ast.Inspect(x.Body, func(n ast.Node) bool {
+			if a2, ok := n.(*ast.AssignStmt); ok && a2 != as {
+				for _, l := range a2.Lhs {
+					if k := p.exprKey(l); k == vk || strings.HasPrefix(k, vk+"[") {
+						if !(len(a2.Rhs) == 1 && p.exprKey(a2.Rhs[0]) == qk && qk != vk) {
+							others++
+						}
+					}
+				}
+			}
+			return true
+		})
+		if leaves && commits && others == 0 {
+			// floor(64·limbs·log10(2) / k): 19, 38, 57, 77, 115 digits
+			digits := map[int]int64{1: 19, 2: 38, 3: 57, 4: 77, 6: 115}[limbs]
+			if digits > 0 {
+				trip = digits / int64(info.Log10)
+			}
+		}
+	}
+	if trip < 0 {
+		return
+	}
+	// constant steps per iteration, every one of them a statement of the loop body's own list
+	pos, neg := map[string]int64{}, map[string]int64{}
+	bad := map[string]bool{}
+	top := map[ast.Stmt]bool{}
+	for _, s := range list {
+		top[s] = true
+	}
+	ast.Inspect(x.Body, func(n ast.Node) bool {
+		switch y := n.(type) {
+		case *ast.IncDecStmt:
+			k := p.ikey(y.X)
+			if k == "" {
+				return true
+			}
+			if !top[y] {
+				bad[k] = true
+			}
+			if y.Tok == token.INC {
+				pos[k]++
+			} else {
+				neg[k]++
+			}
+		case *ast.AssignStmt:
+			for i, l := range y.Lhs {
+				k := p.ikey(l)
+				if k == "" {
+					continue
+				}
+				c, isConst := int64(0), false
+				if len(y.Lhs) == 1 && len(y.Rhs) == 1 && (y.Tok == token.ADD_ASSIGN || y.Tok == token.SUB_ASSIGN) {
+					c, isConst = p.constInt64(y.Rhs[0])
+					if y.Tok == token.SUB_ASSIGN {
+						c = -c
+					}
+				}
+				_ = i
+				if !isConst || !top[y] {
+					bad[k] = true
+					continue
+				}
+				if c >= 0 {
+					pos[k] += c
+				} else {
+					neg[k] -= c
+				}
+			}
+		}
+		return true
+	})
+	for k := range head {
+		_ = k
+	}
+	keys := map[string]bool{}
+	for k := range pos {
+		keys[k] = true
+	}
+	for k := range neg {
+		keys[k] = true
+	}
+	for k := range keys {
+		if bad[k] {
+			continue
+		}
+		ev, ok := entry[k]
+		if !ok {
+			continue
+		}
+		hv := head[k]
+		if ev.hi != nil && hv.hi == nil {
+			hv.hi = new(big.Int).Add(ev.hi, big.NewInt((trip+1)*pos[k]))
+		}
+		if ev.lo != nil && hv.lo == nil {
+			hv.lo = new(big.Int).Sub(ev.lo, big.NewInt((trip+1)*neg[k]))
+		}
+		head[k] = hv
+	}
 }
